@@ -60,8 +60,9 @@ func VerifSetResidue(fill func(v VerifBufferView)) {
 }
 
 // VerifPristine restores process-start state: zeroed buffers and an empty time-zone cache.
-// The cache is emptied through reflection so that this file does not depend on the cache's key
-// type.
+// The cache is replaced by a new map (deleting the keys would keep the grown bucket array, and a
+// process that has just started has none); reflection keeps this file independent of the
+// cache's key type.
 func VerifPristine() {
 	verifMu.Lock()
 	verifFill = nil
@@ -70,10 +71,8 @@ func VerifPristine() {
 	}
 	verifMu.Unlock()
 	mutexTimeZones.Lock()
-	m := reflect.ValueOf(cacheTimeZone)
-	for _, k := range m.MapKeys() {
-		m.SetMapIndex(k, reflect.Value{})
-	}
+	m := reflect.ValueOf(&cacheTimeZone).Elem()
+	m.Set(reflect.MakeMap(m.Type()))
 	mutexTimeZones.Unlock()
 }
 
